@@ -79,26 +79,39 @@ def light_family(rng: random.Random) -> List[str]:
 # kinds
 # --------------------------------------------------------------------------------------------
 class Kind:
-    def __init__(self, name: str, model: str, make: Callable[[random.Random, int], Tuple[bytes, Dict[str, Any]]],
-                 decode: Callable[[bytes, Dict[str, Any]], Any], ex: Tuple[int, int], cls: Tuple[int, int],
-                 pus: bool, variants: int):
+    def __init__(self, name: str, model, make: Callable[[random.Random, int], Tuple[bytes, Dict[str, Any]]],
+                 decode: Callable[[bytes, Dict[str, Any]], Any], ex: Tuple[int, int], cls, pus: bool, variants: int):
         self.name = name          # key in KINDS, travels in the op line as "kind"
-        self.model = model        # Lean op family: c04_<model>_*
+        self._model = model       # Lean op family c04_<model>_* (a string, or a function of the packed octets)
         self.make = make          # (rng, i) -> (packed valid packet from the real encoder, extra op fields); i = variant index
         self.decode = decode      # real decoder
         self.ex = ex              # excluded bit range (length-determining octets)
-        self.cls = cls            # bit range where another documented class may pre-empt the checksum error
+        self._cls = cls           # bit range where another documented class may pre-empt the checksum error (or function of raw)
         self.pus = pus            # standalone check = check_pus_crc (else the plain CRC function)
         self.variants = variants  # number of structurally different variants `make` knows (i cycles through them)
+
+    def model(self, raw: bytes) -> str:
+        return self._model(raw) if callable(self._model) else self._model
+
+    def cls(self, raw: bytes) -> Tuple[int, int]:
+        return self._cls(raw) if callable(self._cls) else self._cls
 
     def crc_check(self, d: bytes) -> bool:
         return bool(check_pus_crc(d)) if self.pus else CRC16_CCITT_FUNC(d) == 0
 
-    def extra(self, ex: Dict[str, Any]) -> Dict[str, Any]:
+    def extra(self, raw: bytes, ex: Dict[str, Any]) -> Dict[str, Any]:
         e = {"kind": self.name, **ex}
-        if self.model == "frame":
-            e.update(ex_lo=self.ex[0], ex_hi=self.ex[1])
+        lo, hi = self.cls(raw)
+        if not self.pus and hi > lo:
+            e["cls"] = f"{lo}:{hi}"   # a string, so that case minimisation leaves it alone
         return e
+
+
+def _cls_of(kind: "Kind", a: Dict[str, Any], raw: bytes) -> Tuple[int, int]:
+    if "cls" in a:
+        lo, hi = a["cls"].split(":")
+        return int(lo), int(hi)
+    return kind.cls(raw)
 
 
 PUS_EX, PUS_CLS = (32, 48), (48, 52)
@@ -264,18 +277,34 @@ add_kind(Kind("tc", "tc", mk_tc, lambda d, e: PusTc.unpack(d), PUS_EX, PUS_CLS, 
 add_kind(Kind("tm", "tm", mk_tm, lambda d, e: PusTm.unpack(d, e["ts_len"]), PUS_EX, PUS_CLS, True, 39))
 add_kind(Kind("s17", "s17", mk_s17, lambda d, e: Service17Tm.unpack(d, e["ts_len"]), PUS_EX, PUS_CLS, True, 9))
 add_kind(Kind("s1", "s1", mk_s1, dec_s1, PUS_EX, PUS_CLS, True, 32))
-# CFDP: in this revision the model side is the generic CRC frame (`c04_frame_*`): it knows nothing of
-# the PDU layout, only that a CRC-flagged PDU is accepted iff its residue is zero. The real classes do
-# all the decoding. Stage 2 replaces "frame" by the header + verify_length_and_checksum model.
-for _n, _mk, _cls in (("cfdp_eof", mk_eof, pdu.EofPdu), ("cfdp_finished", mk_finished, pdu.FinishedPdu),
-                      ("cfdp_ack", mk_ack, pdu.AckPdu), ("cfdp_metadata", mk_metadata, pdu.MetadataPdu),
-                      ("cfdp_nak", mk_nak, pdu.NakPdu), ("cfdp_prompt", mk_prompt, pdu.PromptPdu),
-                      ("cfdp_keep_alive", mk_keep_alive, pdu.KeepAlivePdu), ("cfdp_file_data", mk_file_data, pdu.FileDataPdu)):
-    add_kind(Kind(_n, "frame", _mk, (lambda c: lambda d, e: c.unpack(d))(_cls), CFDP_EX, CFDP_CLS, False, 16))
+# CFDP: the real classes do all the decoding; the model side is what every PDU decoder runs first
+# (fixed header decode + verify_length_and_checksum): `cfdpdir` for the seven file-directive classes
+# (through FileDirectivePduBase.unpack), `cfdp` for File Data. All built with CrcFlag.WITH_CRC.
+for _n, _mk, _cls, _m in (("cfdp_eof", mk_eof, pdu.EofPdu, "cfdpdir"), ("cfdp_finished", mk_finished, pdu.FinishedPdu, "cfdpdir"),
+                          ("cfdp_ack", mk_ack, pdu.AckPdu, "cfdpdir"), ("cfdp_metadata", mk_metadata, pdu.MetadataPdu, "cfdpdir"),
+                          ("cfdp_nak", mk_nak, pdu.NakPdu, "cfdpdir"), ("cfdp_prompt", mk_prompt, pdu.PromptPdu, "cfdpdir"),
+                          ("cfdp_keep_alive", mk_keep_alive, pdu.KeepAlivePdu, "cfdpdir"),
+                          ("cfdp_file_data", mk_file_data, pdu.FileDataPdu, "cfdp")):
+    add_kind(Kind(_n, _m, _mk, (lambda c: lambda d, e: c.unpack(d))(_cls), CFDP_EX, CFDP_CLS, False, 16))
+
+
+def _is_directive(raw: bytes) -> bool:
+    return (raw[0] >> 4) & 1 == 0
+
+
+def _directive_octet(raw: bytes) -> Tuple[int, int]:
+    """bit range of the directive-code octet: the factory dispatches on it before any decoder runs, so a
+    burst that turns it into a non-member (ValueError) or an unhandled member (None) is refused there"""
+    if not _is_directive(raw):
+        return (0, 0)
+    hl = 4 + 2 * (((raw[3] >> 4) & 7) + 1) + ((raw[3] & 7) + 1)
+    return (8 * hl, 8 * hl + 8)
+
+
+_ALL_MK = [mk_eof, mk_finished, mk_ack, mk_metadata, mk_nak, mk_prompt, mk_keep_alive, mk_file_data]
 # every CFDP class also through the factory entry point, which has its own dispatch in front of the decoders
-add_kind(Kind("cfdp_factory", "frame",
-              lambda rng, i: [mk_eof, mk_finished, mk_ack, mk_metadata, mk_nak, mk_prompt, mk_keep_alive, mk_file_data][i % 8](rng, i // 8 + i),
-              lambda d, e: _factory(d), CFDP_EX, CFDP_CLS, False, 32))
+add_kind(Kind("cfdp_factory", lambda raw: "cfdpdir" if _is_directive(raw) else "cfdp",
+              lambda rng, i: _ALL_MK[i % 8](rng, i // 8 + i), lambda d, e: _factory(d), CFDP_EX, _directive_octet, False, 32))
 
 
 def _factory(d: bytes):
@@ -326,6 +355,7 @@ def op_sweep(a):
     out = {"base_ok": base_ok, "base_crc_check": kind.crc_check(raw), "faults": 0, "rejected": 0, "undocumented": 0,
            "clean_windows": 0, "crc_class_on_clean": 0, "crc_checked": 0, "crc_check_false": 0}
     nbits = 8 * len(raw)
+    cls = _cls_of(kind, a, raw)
     for pat in a["patterns"]:
         ln = len(pat)
         if ln == 0 or ln > nbits:
@@ -334,7 +364,7 @@ def op_sweep(a):
             if meets(k, ln, *kind.ex):
                 continue
             d = flip(raw, k, pat)
-            clean = not meets(k, ln, *kind.cls)
+            clean = not meets(k, ln, *cls)
             do_check = out["faults"] % every == 0
             out["faults"] += 1
             out["clean_windows"] += clean
@@ -427,7 +457,7 @@ def op_tm_mutated_pack(a):
 
 OPS: Dict[str, Callable] = {"c04_crc": op_crc, "c04_flip": op_flip, "c04_tc_mutated_pack": op_tc_mutated_pack,
                             "c04_tm_mutated_pack": op_tm_mutated_pack}
-for _m in sorted({k.model for k in KINDS.values()}):
+for _m in ("tc", "tm", "s17", "s1", "cfdp", "cfdpdir"):
     OPS[f"c04_{_m}_check"] = op_check
     OPS[f"c04_{_m}_corrupt"] = op_corrupt
     OPS[f"c04_{_m}_sweep"] = op_sweep
@@ -442,7 +472,7 @@ class C04(Prop):
     lean_modules = ["SpVerif.Props.C04"]
     trusted_base = [
         "crcmod (CRC16_CCITT_FUNC, PredefinedCrc, mkPredefinedCrcFun) tied to the Lean bit-serial CRC by the c04_crc op on structured and random data up to 70 000 octets in this run",
-        "CFDP PDU kinds: the model side of the fault enumeration is the generic CRC-frame model (residue zero over the whole PDU); the PDU decoders themselves are exercised as real code only in this revision",
+        "CFDP PDU kinds: the model side of the fault enumeration is the common decoder front (PduHeader.unpack + verify_length_and_checksum, with FileDirectivePduBase.unpack in between for directives); the PDU bodies are decoded by the real classes only - which is all the 'never returns an object' clause needs, since the front fails first",
     ]
     assumptions = [
         "length-determining octets: PUS octets 4-5; CFDP octets 0-3 (CRC flag, data-field length, width nibbles) - DESIGN.md section 8",
@@ -477,8 +507,8 @@ class C04(Prop):
 
     # individual faults of one packet as separately compared lines (also the neighbourhood of a differing sweep)
     def _single(self, kind: Kind, raw: bytes, ex: Dict[str, Any], k: int, pat: str, tag: str) -> Case:
-        clean = not meets(k, len(pat), *kind.cls)
-        return Case({"op": f"c04_{kind.model}_corrupt", **kind.extra(ex), "raw": hx(raw), "bit_offset": k, "pattern": pat},
+        clean = not meets(k, len(pat), *kind.cls(raw))
+        return Case({"op": f"c04_{kind.model(raw)}_corrupt", **kind.extra(raw, ex), "raw": hx(raw), "bit_offset": k, "pattern": pat},
                     "invalid", errclass=clean, tag=tag)
 
     def neighbours(self, case: Case, rng: random.Random) -> Iterator[Case]:
@@ -532,24 +562,35 @@ class C04(Prop):
             yield Case({"op": "c04_tm_mutated_pack", **b}, "valid", tag="setters-then-pack")
         # ---- fault enumeration ------------------------------------------------------------------
         for kind in KINDS.values():
-            n_light = kind.variants * (6 if thorough else 1)
-            n_full = (kind.variants if thorough else 1)
-            if not thorough and not kind.pus:
-                n_light = max(8, kind.variants // 2)
+            if thorough:
+                n_light, n_full = kind.variants * 6, kind.variants
+            else:
+                n_light, n_full = ((kind.variants + 1) // 2 if kind.pus else 5), 1
             off = rng.randint(0, 1000)
             for i in range(n_light + n_full):
                 raw, ex = kind.make(rng, off + i)
                 full = i >= n_light
-                yield Case({"op": f"c04_{kind.model}_check", **kind.extra(ex), "raw": hx(raw)}, "valid", tag=f"{kind.name}:valid")
+                m = kind.model(raw)
+                yield Case({"op": f"c04_{m}_check", **kind.extra(raw, ex), "raw": hx(raw)}, "valid", tag=f"{kind.name}:valid")
+                try:
+                    kind.decode(raw, ex)
+                    base_ok = kind.crc_check(raw)
+                except Exception:  # noqa  (reported through the check case above)
+                    base_ok = False
+                if not base_ok:
+                    continue
                 pats = full_family(rng) if full else light_family(rng)
-                if full and not thorough and len(raw) > 40:
-                    pats = pats[:1] + rng.sample(pats[1:], 12)
-                yield Case({"op": f"c04_{kind.model}_sweep", **kind.extra(ex), "raw": hx(raw), "patterns": pats,
-                            "crc_every": (1 if thorough else 2) if kind.pus and not full else (8 if kind.pus else 3)},
+                if full and not thorough:
+                    pats = pats[:1] + rng.sample(pats[1:], 10)
+                if kind.pus:
+                    every = 1 if thorough else (6 if full else 3)
+                else:
+                    every = 2 if thorough else 4
+                yield Case({"op": f"c04_{m}_sweep", **kind.extra(raw, ex), "raw": hx(raw), "patterns": pats, "crc_every": every},
                            "valid", tag=f"{kind.name}:{'full' if full else 'light'}-sweep")
                 # a sample of the same faults as individually compared lines (error class compared)
                 nbits = 8 * len(raw)
-                for _ in range(40 if thorough else 12):
+                for _ in range(40 if thorough else 10):
                     pat = rng.choice(["1", "1", rand_pattern(rng)])
                     k = rng.randint(0, nbits - len(pat))
                     if meets(k, len(pat), *kind.ex):
